@@ -27,11 +27,43 @@ func isIntType(t types.Type) bool {
 func counterAddr(v ssa.Value) bool {
 	switch x := v.(type) {
 	case *ssa.Global:
-		return isIntType(derefType(x.Type()))
+		return isIntType(derefType(x.Type())) || typedAtomicInt(derefType(x.Type()))
 	case *ssa.FieldAddr:
-		return isIntType(derefType(x.Type()))
+		return isIntType(derefType(x.Type())) || typedAtomicInt(derefType(x.Type()))
 	}
 	return false
+}
+
+// typedAtomicInt: sync/atomic.Int32 / Int64 / Uint32 / Uint64 / Uintptr.
+func typedAtomicInt(t types.Type) bool {
+	n := namedOf(t)
+	if n == nil || n.Obj().Pkg() == nil || n.Obj().Pkg().Path() != "sync/atomic" {
+		return false
+	}
+	switch n.Obj().Name() {
+	case "Int32", "Int64", "Uint32", "Uint64", "Uintptr":
+		return true
+	}
+	return false
+}
+
+// atomicOpName: "Add" / "Load" / … for the functions of sync/atomic and the methods of its typed
+// integers (the counter's address is the first argument in both forms).
+func atomicOpName(in ssa.Instruction) string {
+	n := callName(in)
+	if !strings.HasPrefix(n, "sync/atomic.") {
+		return ""
+	}
+	rest := strings.TrimPrefix(n, "sync/atomic.")
+	if i := strings.LastIndex(rest, "."); i >= 0 {
+		return rest[i+1:] // typed: Uint64.Add
+	}
+	for _, op := range []string{"Add", "Load", "Store", "Swap", "CompareAndSwap"} {
+		if strings.HasPrefix(rest, op) {
+			return op
+		}
+	}
+	return ""
 }
 
 type idGen struct {
@@ -71,8 +103,7 @@ func findIDGenerators(c *Ctx, lfs *LockFlows, pkgOK func(string) bool) []idGen {
 					}
 				}
 			case *ssa.Call:
-				n := callName(x)
-				if strings.HasPrefix(n, "sync/atomic.Add") && len(x.Call.Args) == 2 && counterAddr(x.Call.Args[0]) {
+				if atomicOpName(x) == "Add" && len(x.Call.Args) == 2 && counterAddr(x.Call.Args[0]) {
 					incs = append(incs, incr{x.Call.Args[0], in, true, x})
 				}
 			}
@@ -103,8 +134,7 @@ func findIDGenerators(c *Ctx, lfs *LockFlows, pkgOK func(string) bool) []idGen {
 						return
 					}
 				case *ssa.Call:
-					n := callName(x)
-					if strings.HasPrefix(n, "sync/atomic.Load") && len(x.Call.Args) == 1 && equivValue(x.Call.Args[0], inc.addr, 0) {
+					if atomicOpName(x) == "Load" && len(x.Call.Args) == 1 && equivValue(x.Call.Args[0], inc.addr, 0) {
 						reads = append(reads, read{v, "atomic-load", x, i})
 						return
 					}
